@@ -402,13 +402,13 @@ pub async fn run_async(plan: &PlanA, opts: &ExecOpts) -> RunResult {
         /* control steps first, in plan order */
         let mut dhcp_steps: Vec<(usize, &MsgSpec)> = vec![];
         let mut raw_steps: Vec<(usize, usize, &Vec<u8>)> = vec![];
-        let mut http_steps: Vec<(usize, &String, &HttpVia, u8)> = vec![];
+        let mut http_steps: Vec<(usize, &String, &HttpVia, u8, u32)> = vec![];
         let mut acl_steps: Vec<(usize, &String, &String, &String)> = vec![];
         for (si, st) in &group {
             match &st.kind {
                 StepKind::Dhcp(m) => dhcp_steps.push((*si, m)),
                 StepKind::Raw { lan, data } => raw_steps.push((*si, *lan, data)),
-                StepKind::Http { path, via, aim, .. } => http_steps.push((*si, path, via, *aim)),
+                StepKind::Http { path, via, aim, read_fault, .. } => http_steps.push((*si, path, via, *aim, *read_fault)),
                 StepKind::AclHttp { path, from, to } => acl_steps.push((*si, path, from, to)),
                 StepKind::ClockJump(d) => {
                     crate::interpose::add_skew_secs(*d);
@@ -1010,7 +1010,7 @@ pub async fn run_async(plan: &PlanA, opts: &ExecOpts) -> RunResult {
         }
 
         // ---- HTTP steps (C20), sequential by construction
-        for (si, path, via, aim) in &http_steps {
+        for (si, path, via, aim, read_fault) in &http_steps {
             let (from, to) = match via {
                 HttpVia::Tcp4 => (Addr::Inet("127.0.0.1:40000".parse().unwrap()), Addr::Inet("127.0.0.1:9968".parse().unwrap())),
                 HttpVia::Tcp6 => (Addr::Inet("[::1]:40000".parse().unwrap()), Addr::Inet("[::1]:9968".parse().unwrap())),
@@ -1031,7 +1031,20 @@ pub async fn run_async(plan: &PlanA, opts: &ExecOpts) -> RunResult {
                 }
             }
             let wall = crate::interpose::wall_now_secs();
+            vfs::with_disk(|d| {
+                d.read_fail_next = *read_fault;
+                d.faults_fired = 0;
+            });
             let reply = http_get(&kernel, from, to, path).await;
+            let read_failed = vfs::with_disk(|d| {
+                let f = d.faults_fired;
+                d.faults_fired = 0;
+                d.read_fail_next = 0;
+                f > 0
+            });
+            if read_failed {
+                *res.faults.entry("disk_read_error_while_serving_http".into()).or_insert(0) += 1;
+            }
             let wall_after = crate::interpose::wall_now_secs();
             for (loc, msg) in crate::common::take_panics() {
                 if loc.contains("addr/mod.rs") {
@@ -1045,7 +1058,20 @@ pub async fn run_async(plan: &PlanA, opts: &ExecOpts) -> RunResult {
                 Ok(rep) if rep.status != 200 => res.observations.push(format!("http {} via {:?}: status {}", path, via, rep.status)),
                 Ok(rep) => {
                     nontrivial_events += 1;
-                    if path.ends_with("leases.json") {
+                    if read_failed {
+                        /* the store could not be read: the request may fail; what it must not
+                         * do is report success with something that is not the store */
+                        res.probe("C20.http_200_although_the_store_could_not_be_read");
+                        let before = res.violations.len();
+                        if path.ends_with("leases.json") {
+                            check_listing(&mut res, &rep.body, &rows, *si);
+                        }
+                        for v in res.violations[before..].iter_mut() {
+                            if v.kind == "C20.listing_differs_from_store" {
+                                v.kind = "C20.listing_differs_from_store.after_disk_read_error".into();
+                            }
+                        }
+                    } else if path.ends_with("leases.json") {
                         check_listing(&mut res, &rep.body, &rows, *si);
                     } else {
                         check_gauges(&mut res, &rep.body, &rows, wall, wall_after, *si);
